@@ -226,14 +226,33 @@ type RawSPS struct {
 
 // Width 视频宽度（像素）
 func (sps *RawSPS) Width() int {
-	w := (sps.PicWidthInMbsMinus1+1)*16 - sps.FrameCropLeftOffset*2 - sps.FrameCropRightOffset*2
-	return int(w)
+	cropUnitX, _ := sps.cropUnits()
+	return (int(sps.PicWidthInMbsMinus1)+1)*16 -
+		cropUnitX*(int(sps.FrameCropLeftOffset)+int(sps.FrameCropRightOffset))
 }
 
 // Height 视频高度（像素）
 func (sps *RawSPS) Height() int {
-	h := (2-uint16(sps.FrameMbsOnlyFlag))*(sps.PicHeightInMapUnitsMinus1+1)*16 - sps.FrameCropTopOffset*2 - sps.FrameCropBottomOffset*2
-	return int(h)
+	_, cropUnitY := sps.cropUnits()
+	return (2-int(sps.FrameMbsOnlyFlag))*(int(sps.PicHeightInMapUnitsMinus1)+1)*16 -
+		cropUnitY*(int(sps.FrameCropTopOffset)+int(sps.FrameCropBottomOffset))
+}
+
+// cropUnits returns CropUnitX and CropUnitY (H.264 7.4.2.1.1, equations 7-19 .. 7-22):
+// they depend on ChromaArrayType and, vertically, on frame_mbs_only_flag.
+func (sps *RawSPS) cropUnits() (cropUnitX, cropUnitY int) {
+	chromaArrayType := sps.ChromaFormatIdc
+	if sps.SeparateColourPlaneFlag == 1 {
+		chromaArrayType = 0
+	}
+	fieldFactor := 2 - int(sps.FrameMbsOnlyFlag)
+	switch chromaArrayType {
+	case 1: // 4:2:0, SubWidthC = 2, SubHeightC = 2
+		return 2, 2 * fieldFactor
+	case 2: // 4:2:2, SubWidthC = 2, SubHeightC = 1
+		return 2, fieldFactor
+	}
+	return 1, fieldFactor // monochrome, 4:4:4, separate colour planes
 }
 
 // FrameRate Video frame rate
